@@ -4,6 +4,7 @@
 #include <cstdio>
 #include <cstring>
 #include <string>
+#include <memory>
 #include <vector>
 #include <sstream>
 #include <iostream>
@@ -61,6 +62,47 @@ template <typename F> static std::string sdft1(const Args& a)
     }
     return join(r);
 }
+// firg <d> <N> taps(N ints, value n/4096) samples...: BaseFirFilter<F,N> for other tap counts and tap sets than the repository's (even and odd N,
+// symmetric and asymmetric), 999999 = reset()
+template <typename F, size_t N> static std::string firg_n(const Args& a)
+{
+    std::array<F, N> taps; for (size_t i = 0; i < N; ++i) taps[i] = F(a.at(2 + i)) / F(4096);
+    BaseFirFilter<F, N> f{taps};
+    std::vector<long long> r;
+    for (size_t i = 2 + N; i < a.size(); ++i) {
+        if (a[i] == 999999) { f.reset(); continue; }
+        r.push_back(bits(f(F(a[i]) / F(4096))));
+    }
+    return join(r);
+}
+template <typename F> static std::string firg(const Args& a)
+{
+    switch (a.at(1)) {
+        case 1: return firg_n<F, 1>(a); case 2: return firg_n<F, 2>(a); case 3: return firg_n<F, 3>(a); case 4: return firg_n<F, 4>(a);
+        case 5: return firg_n<F, 5>(a); case 8: return firg_n<F, 8>(a); case 10: return firg_n<F, 10>(a); case 11: return firg_n<F, 11>(a);
+        default: return "bad-n";
+    }
+}
+// sdftm <d> <k> f1a f1b ... samples: k+1 detectors of the SAME instantiation live in one process; the first k (frequency pairs given) are
+// constructed and exercised first, the last one {2400,3600} is the one reported - each instance must use its own configured frequencies
+template <typename F> static std::string sdftm(const Args& a)
+{
+    size_t k = size_t(a.at(1));
+    std::vector<std::unique_ptr<NSlidingDFT<F, 48000, 120, 2>>> others;
+    for (size_t i = 0; i < k; ++i) {
+        others.emplace_back(new NSlidingDFT<F, 48000, 120, 2>({size_t(a.at(2 + 2 * i)), size_t(a.at(3 + 2 * i))}));
+        (*others.back())(F(0.25));
+    }
+    NSlidingDFT<F, 48000, 120, 2> d({2400, 3600});
+    std::vector<long long> r;
+    for (size_t i = 2 + 2 * k; i < a.size(); ++i) {
+        for (auto& o : others) (*o)(F(a[i]) / F(8192));
+        auto v = d(F(a[i]) / F(4096));
+        r.push_back(bits(double(v[0].real()))); r.push_back(bits(double(v[0].imag())));
+        r.push_back(bits(double(v[1].real()))); r.push_back(bits(double(v[1].imag())));
+    }
+    return join(r);
+}
 static std::string handle(const std::string& op, const Args& a)
 {
     bool d = !a.empty() && a[0] != 0;
@@ -68,6 +110,8 @@ static std::string handle(const std::string& op, const Args& a)
     if (op == "iir") return d ? iir<double>(a) : iir<float>(a);
     if (op == "sdft") return d ? sdft<double>(a) : sdft<float>(a);
     if (op == "sdft1") return d ? sdft1<double>(a) : sdft1<float>(a);
+    if (op == "firg") return d ? firg<double>(a) : firg<float>(a);
+    if (op == "sdftm") return d ? sdftm<double>(a) : sdftm<float>(a);
     return "bad-op";
 }
 int main()
